@@ -592,7 +592,7 @@ def run(tier):
         ck.violation('no-failing-input-found', 'harness codec.cpp does not compile against the repository: ' + e[-900:])
         return ck.finish(trusted=TRUSTED)
 
-    n = 2500 if tier == 'quick' else 60000
+    n = 2500 if tier == 'quick' else 200000
     corp = corpus()
     known_files = set()
     try:
@@ -663,6 +663,14 @@ def run(tier):
                 ck.violation('impl-failing-input', 'property monitor on the implementation (finding replay %s): %s' % (f, m), case=c, observed=l1[0])
         else:
             ck.notes.append('finding replay %s no longer fails on this tree' % f)
+
+    if tier == 'thorough':
+        # independent re-check of the compiled proofs (kernel only), axioms reported by coqchk itself
+        from vlib import sh, COQ
+        rc, so, se = sh(['coqchk', '-silent', '-o', '-Q', 'theories', 'Quill', '-Q', 'gen', 'QuillGen', 'Quill.Props.Properties_C04'], cwd=COQ, timeout=900)
+        okchk = rc == 0 and '* Axioms: <none>' in (so + se)
+        ck.tie.append({'name': 'coqchk -o Quill.Props.Properties_C04', 'ok': okchk, 'detail': 'Axioms: <none>' if okchk else (so + se)[-300:]})
+        if not okchk: broken.append('coqchk rejected the compiled development or found axioms')
 
     if broken and not ck.violations:
         ck.violation('no-failing-input-found', '; '.join(broken))
